@@ -63,6 +63,21 @@ def run(lines, out, args):
             st["vals"][i] = V(i, e, st["objinv"])
         return st["vals"][i]
 
+    spell = [0]
+
+    def call(fn, names, *a):
+        """the same call, spelled three ways in turn: all positional; the trailing arguments by keyword; every argument by keyword
+        (in an order of its own) -- the parameter names are part of the public signature of both implementations"""
+        spell[0] += 1
+        k = spell[0] % 5
+        if k == 1:
+            return fn(*a[:2], **dict(zip(names[2:], a[2:])))
+        if k == 3:
+            return fn(**dict(reversed(list(zip(names, a)))))
+        if k == 4 and len(a) > 1:
+            return fn(a[0], **dict(zip(names[1:], a[1:])))
+        return fn(*a)
+
     def name_of(s):
         # non-string names: `#<int>` (0 is falsy) and the falsy / truthy kinds the name check must reject on every path, cache hit included
         if not s.startswith("#"):
@@ -119,20 +134,25 @@ def run(lines, out, args):
                 st["regs"][int(f[2])] = dst
             elif op == "rebuild":
                 st["regs"][int(f[1])].rebuild()
+            elif op == "relookup":
+                # the lookup object is re-created for the registry as it stands (what unpickling a persistent registry does)
+                # (zope.component's persistent registries: `_createLookup()`, then `_v_lookup.changed(self)`)
+                st["regs"][int(f[1])]._createLookup()
+                st["regs"][int(f[1])]._v_lookup.changed(st["regs"][int(f[1])])
             elif op == "lookup":
-                r = st["regs"][int(f[1])].lookup(req(f[2]), st["nodes"][int(f[3])], name_of(f[4]), default)
+                r = call(st["regs"][int(f[1])].lookup, ("required", "provided", "name", "default"), req(f[2]), st["nodes"][int(f[3])], name_of(f[4]), default)
                 got = "N" if r is default else vi(r)
             elif op == "lookup1":
-                r = st["regs"][int(f[1])].lookup1(req(f[2])[0], st["nodes"][int(f[3])], name_of(f[4]), default)
+                r = call(st["regs"][int(f[1])].lookup1, ("required", "provided", "name", "default"), req(f[2])[0], st["nodes"][int(f[3])], name_of(f[4]), default)
                 got = "N" if r is default else vi(r)
             elif op == "lookupAll":
-                r = st["regs"][int(f[1])].lookupAll(req(f[2]), st["nodes"][int(f[3])])
+                r = call(st["regs"][int(f[1])].lookupAll, ("required", "provided"), req(f[2]), st["nodes"][int(f[3])])
                 got = " ".join(sorted("%s=%s" % (a, vi(b)) for a, b in r))
             elif op == "names":
                 r = st["regs"][int(f[1])].names(req(f[2]), st["nodes"][int(f[3])])
                 got = " ".join(sorted(r))
             elif op == "subs":
-                r = st["regs"][int(f[1])].subscriptions(req(f[2]), None if f[3] == "N" else st["nodes"][int(f[3])])
+                r = call(st["regs"][int(f[1])].subscriptions, ("required", "provided"), req(f[2]), None if f[3] == "N" else st["nodes"][int(f[3])])
                 got = " ".join(vi(x) for x in r)
             elif op == "qadapter":
                 reg = st["regs"][int(f[1])]
@@ -141,11 +161,11 @@ def run(lines, out, args):
                 nm = name_of(f[4])
                 via = f[5]
                 if via == "q":
-                    r = reg.queryAdapter(obs[0], p, nm, default)
+                    r = call(reg.queryAdapter, ("object", "provided", "name", "default"), obs[0], p, nm, default)
                 elif via == "h":
-                    r = reg.adapter_hook(p, obs[0], nm, default)
+                    r = call(reg.adapter_hook, ("provided", "object", "name", "default"), p, obs[0], nm, default)
                 else:
-                    r = reg.queryMultiAdapter(obs, p, nm, default)
+                    r = call(reg.queryMultiAdapter, ("objects", "provided", "name", "default"), obs, p, nm, default)
                 if r is default:
                     got = "default"
                 elif isinstance(r, Res):
@@ -155,7 +175,7 @@ def run(lines, out, args):
             elif op == "subscribers":
                 reg = st["regs"][int(f[1])]
                 obs = [st["objs"][o] for o in ints(f[2])]
-                r = reg.subscribers(obs, None if f[3] == "N" else st["nodes"][int(f[3])])
+                r = call(reg.subscribers, ("objects", "provided"), obs, None if f[3] == "N" else st["nodes"][int(f[3])])
                 got = " ".join(str(x[1]) if isinstance(x, Res) else "other:%r" % (x,) for x in r)
             elif op == "registered":
                 got = vi(st["regs"][int(f[1])].registered(req(f[2]), st["nodes"][int(f[3])], f[4]))
